@@ -1,7 +1,7 @@
 (* Proofs/PatternEscape.v -- C10: escape_quotes_and_backslashes and the lexer's
    StringLiteral rule are inverse to each other, for every string.            *)
 From Coq Require Import NArith List Bool Lia.
-From V Require Import Model.PatternSyntax.
+From V Require Import Model.PatternSyntax Proofs.PatternR.
 Import ListNotations.
 Open Scope N_scope.
 
